@@ -612,6 +612,14 @@ def check_CR(prop, tier, rule, text_assume, known_devs=(), level="model_checking
     for k in known:
         for d in (k.get("devs") or ["?"]):
             R.known.setdefault(d, k)
+    if prop == "C05":
+        # reader half, step level: the soap_binding hook events of the in-process generations against MC_CR!OpsOf
+        gen_traces = glob_traces("CR_" + tier)
+        if gen_traces:
+            tcfg2 = cfg("TraceSpec", {"Dev": tla_set(dev), "P": '"C05reader"', "Tok": "<- TokOfTrace"}, post="Accepted")
+            v2, k2, s2, d2 = trace_run(R, "Trace_CR", tcfg2, gen_traces, "T_CR_C05reader")
+            R.viol += v2
+            R.extra["reader_level_traces"] = len(gen_traces)
     R.extra["pipeline"] = {k: v for k, v in stats.items() if k != "mc"}
     R.samples = [{"label": c["label"], "kind": c["kind"], "structs": len(c["expect"]), "ops": len(c["ops"])} for c in cases[:4]]
     if level == "other":
